@@ -127,8 +127,13 @@ fn s_nearmiss(t: &mut Tape, ctx: &mut Ctx) -> Result<(), Failure> {
     check_text(&m, ctx, layout, "near-miss-edit")
 }
 
+fn s_fuzztext(t: &mut Tape, ctx: &mut Ctx) -> Result<(), Failure> {
+    let s = crate::fuzzglue::text_of_tape(t);
+    check_text(&s, ctx, "as-is", "fuzztext")
+}
+
 pub fn streams() -> Vec<Stream> {
-    vec![Stream {
+    vec![Stream { name: "fuzztext", kind: Kind::Tape { cases: |_| 0, max_len: 4096, f: s_fuzztext }, isolate: false }, Stream {
         name: "nearmiss",
         kind: Kind::Tape {
             cases: |t: Tier| t.pick(150_000, 3_000_000),
